@@ -1527,7 +1527,7 @@ class Exec:
     def ev_Subscript(self, e, st):
         res = []
         if isinstance(e.slice, ast.Slice):
-            raise Unsupported('slice (line %d)' % e.lineno)
+            return self.ev_slice(e, st)
         for st2, vals in self.ev_many([e.value, e.slice], st):
             if isinstance(vals, Raised):
                 res.append((st2, vals))
@@ -1544,6 +1544,32 @@ class Exec:
             res.append((bad, Raised('IndexError', bad.alloc('exc', 'IndexError'))))
             st2.assume(ok)
             res.append((st2, vref(st2.lat(base.t, i))))
+        return res
+
+    def ev_slice(self, e, st):
+        """X[1:] and X[-1:] of a list: a fresh list"""
+        sl = e.slice
+        if not (sl.upper is None and sl.step is None and sl.lower is not None):
+            raise Unsupported('slice shape (line %d)' % e.lineno)
+        res = []
+        for st2, vals in self.ev_many([e.value, sl.lower], st):
+            if isinstance(vals, Raised):
+                res.append((st2, vals))
+                continue
+            base, lo = vals
+            if base.kind != 'list' or lo.kind != 'int':
+                raise Unsupported('slice of %s' % base.kind)
+            n = st2.llen(base.t)
+            st2.assume(n >= 0)
+            start = z3.If(lo.t < 0, z3.If(n + lo.t < 0, 0, n + lo.t), z3.If(lo.t > n, n, lo.t))
+            r = st2.alloc_list()
+            old = z3.Select(st2.H('$lat'), base.t)
+            new = L.fresh('lat', L.SeqV)
+            i = L.fresh('i', L.I)
+            st2.assume(L.FA([i], z3.Select(new, i) == z3.Select(old, start + i), patterns=[z3.Select(new, i)]))
+            st2.heap['$lat'] = z3.Store(st2.H('$lat'), r, new)
+            st2.heap['$llen'] = z3.Store(st2.H('$llen'), r, n - start)
+            res.append((st2, vlist(r)))
         return res
 
     def ev_Await(self, e, st):
